@@ -148,3 +148,23 @@ func init() {
 		return map[string]interface{}{"esc": hex.EncodeToString([]byte(esc)), "lines": hl, "starts": starts, "err": e}, nil
 	})
 }
+
+func init() {
+	// readLines: the logical lines the real reader makes of a text (hex in, hex out)
+	register("readLines", func(raw json.RawMessage) (interface{}, error) {
+		var a struct{ Text string }
+		if err := json.Unmarshal(raw, &a); err != nil {
+			return nil, err
+		}
+		t, err := hex.DecodeString(a.Text)
+		if err != nil {
+			return nil, err
+		}
+		lines, starts, e := cmd.VerifReadLogicalLines(string(t))
+		hl := make([]string, len(lines))
+		for i, l := range lines {
+			hl[i] = hex.EncodeToString([]byte(l))
+		}
+		return map[string]interface{}{"lines": hl, "starts": starts, "err": e}, nil
+	})
+}
